@@ -10,6 +10,7 @@
 package main
 
 import (
+	"path"
 	"sort"
 	"strings"
 )
@@ -84,6 +85,9 @@ var failExpr = [...]string{"", "1 / 0", "'x'|nosuch", "boom()"}
 type tmpl struct {
 	extends string
 	body    []node
+	// dir: the directory part of the name the template is registered under ("" = top level). An include
+	// written in this template whose name starts with ./ or ../ names a template relative to this directory.
+	dir string
 }
 
 // failure kinds of templates that are not in the model's registry as ASTs
@@ -513,6 +517,11 @@ func (c *evalCtx) include(n nInclude, sc *scope) (string, bool) {
 	name := evalName(n.name, sc, w.quirks)
 	if w.quirks&quirkNameLiteral != 0 && n.name.form == 4 && !n.ignore && (n.withOn || (!n.only && !n.sandboxed)) {
 		name = n.name.target[:2] + "' ~ '" + n.name.target[2:] // no such template
+	}
+	if strings.HasPrefix(name, "./") || strings.HasPrefix(name, "../") {
+		// a relative name: relative to the directory of the template the tag is written in (generated only
+		// where that template and the one being rendered live in the same directory)
+		name = path.Join(c.self.dir, name)
 	}
 	if kind, bad := w.fails[name]; bad {
 		_ = kind
